@@ -419,6 +419,12 @@ class DriverRules:
                                'T=%d %s: verification accepts %s' % (T, op, 'after the tag compare (S-CMP) returned true' if okc else
                                                                     'WITHOUT a true result of the tag compare function %s (%d calls)' % (self.tagcmp['q'], len(cmps))))
         rec.count('S-GATE gated effects', ngate, len(self.Ts))
+        # summaries of the rules that otherwise only speak when they fail
+        nver = sum(len(self.run('verify', T)[1]) for T in self.Ts)
+        rec.ob('R12.b', 'R12.b@%s::verify-has-no-output-effect' % fkey(fv), not any(o.rule == 'R12.b' and o.ok is False for o in rec.obls), '%s:%s' % (fv['file'], fv['line']),
+               'no write to the output stream and no pipeline run on any of the %d abstract paths of execute_verify (T in %s)' % (nver, self.Ts))
+        rec.ob('R02.f', 'R02.f@%s::input-stream-never-written' % self.D.RCq, not any(o.rule == 'R02.f' and o.ok is False and 'input-written' in o.key for o in rec.obls),
+               '%s:%s' % (fd['file'], fd['line']), 'no fwrite/fputc through the input stream on any analysed path of decrypt and verify')
         # R11.g: extents of block operations and indexed stores decided from input symbols
         for op in ('decrypt', 'verify'):
             f = D.ops[op]
